@@ -18,6 +18,7 @@ COMMON_ASSUMPTIONS = [
 
 CHECKS = {
     "C10": {
+        "extra_props": ["Props/C10_src.v"],
         "module": "p_c10",
         "rule": "seeded random scenarios (1-4 submitter threads x 1-3 submits, 1-2 shutdown calls, optional second shutdown thread, "
                 "environment completing delegate futures, late submit) x {random, sticky, PCT} schedules; every implementation "
@@ -26,7 +27,7 @@ CHECKS = {
         "assumptions": ["delegate executor and completion of its futures are environment (scripted Manual executor)"],
     },
     "C05": {
-        "extra_props": ["Props/C05_machine.v"],
+        "extra_props": ["Props/C05_machine.v", "Props/C05_src.v"],
         "module": "p_c05",
         "gen_lemmas": ["sleep_time_spec", "should_retry_spec", "exception_policy_runs", "get_next_job_spec"],
         "rule": "seeded random scenarios (1-3 submissions from 1-2 client threads, outcome scripts per attempt, "
@@ -40,7 +41,7 @@ CHECKS = {
                         "integer-valued delays in the lockstep histories; dyadic rationals in the kernel differential"],
     },
     "C06": {
-        "extra_props": ["Props/C06_machine.v", "Props/MapFut_E.v"],
+        "extra_props": ["Props/C06_machine.v", "Props/MapFut_E.v", "Props/C06_src.v"],
         "modules": ["p_c06r", "p_c06m", "p_c06p", "p_c06z", "p_c06b", "p_c06t"],
         "rule": "p_c06t: the Throttle lockstep family (C07) with the cancel verdicts (a queued future whose cancel() returned True is never handed over); p_c06p / p_c06z / p_c06b: the lockstep families of C08 (cancel() of poll futures: cancel function, veto, deregistration), C15 and C14 (cancelling the output of f_zip / f_or / f_and with inputs pending, running, done, duplicated) with the cancel-related verdicts of their monitors; retry: seeded scenarios as C05 plus 0-2 cancel() calls per future at random virtual delays / after k delegate "
                 "submissions, from separate threads; every history replayed on Model/Retry.v; distinct = distinct event traces; "
@@ -48,7 +49,7 @@ CHECKS = {
         "assumptions": ["delegate executor, callable outcomes, policy answers and the clock are environment"],
     },
     "C13": {
-        "extra_props": ["Props/MapFut_D.v"],
+        "extra_props": ["Props/MapFut_D.v", "Props/C13_src.v"],
         "modules": ["p_c13"],
         "gen_lemmas": [],
         "rule": "seeded scenarios: 1-3 MapFuture/FlatMapFuture objects built directly over 2-5 environment futures (shared delegates "
@@ -60,7 +61,7 @@ CHECKS = {
         "assumptions": ["delegate futures are plain stdlib futures driven by the environment; chains longer than one level are covered by the pure law (vchain_compose) and the whole-stack differential of C01"],
     },
     "C14": {
-        "extra_props": ["Props/Comb_F.v"],
+        "extra_props": ["Props/Comb_F.v", "Props/C14_src.v"],
         "modules": ["p_c14"],
         "gen_lemmas": ["or_update_spec", "and_update_spec"],
         "rule": "seeded scenarios: f_or/f_and over 2-5 input positions drawn from 2-5 environment futures (duplicates, inputs already done, "
@@ -71,7 +72,7 @@ CHECKS = {
         "assumptions": ["inputs are plain stdlib futures driven by the environment; inputs that were already done at call time count as finishing at registration, in argument order"],
     },
     "C15": {
-        "extra_props": ["Props/Comb_F.v"],
+        "extra_props": ["Props/Comb_F.v", "Props/C15_src.v"],
         "modules": ["p_c15"],
         "gen_lemmas": ["zip_update_spec", "tuple_classes_20"],
         "rule": "as C14 for f_zip (positions, duplicates, first failure / first cancellation, output cancel fan-out), replayed on Model/Comb.v; "
@@ -80,6 +81,7 @@ CHECKS = {
         "assumptions": ["inputs are plain stdlib futures driven by the environment"],
     },
     "C16": {
+        "extra_props": ["Props/C16_src.v"],
         "modules": ["p_c16", "p_c16m"],
         "gen_lemmas": ["runner_insert_at = 0", "apply_recurses_on_tail"],
         "rule": "p_c16m: the MapFuture / FlatMapFuture lockstep family (C13) underneath f_apply; seeded scenarios: f_apply with 0-4 positional x 0-3 keyword argument futures, each already done or completed later by 1-3 "
@@ -89,6 +91,7 @@ CHECKS = {
         "assumptions": ["the currying construction is modelled as a pure function (Model/Apply.v); the flat_map/map plumbing underneath is C13's"],
     },
     "C17": {
+        "extra_props": ["Props/C17_src.v"],
         "modules": ["p_c17", "p_c17m"],
         "gen_lemmas": ["proxy_table (33 entries) all in transparent form", "NoCancelFuture.cancel = False"],
         "rule": "p_c17m: the MapFuture protocol underneath ProxyFuture / NoCancelFuture in lockstep with Model/MapFut.v (family of C02/C13); p_c17 also stacks wrappers on a future while another thread resolves it, timeouts 0 / 0.0, inputs already resolved / failed / cancelled at wrap time; seeded cases: 15 binary and 19 unary/builtin/attribute operations x 19 result values of builtin types x 14 operands x "
@@ -118,7 +121,7 @@ CHECKS = {
         "assumptions": ["PARTIAL: refinement of seq_eval by the composed implementation is validated by this differential, proved only per layer"],
     },
     "C11": {
-        "extra_props": ["Props/C11_Chain.v"],
+        "extra_props": ["Props/C11_Chain.v", "Props/C11_src.v"],
         "modules": ["p_c11", "p_c11g", "p_c11c"],
         "rule": "p_c11c: the shutdown chain as a machine (Model/Chain.v): random stacks as p_c11 plus users shutting down inner layers, callables calling back into submit/shutdown, worker-thread delegate submissions; every history is projected to per-layer shutdown/submit calls, gate operations and worker exits and replayed on the extracted machine; p_c11g: helpers.ShutdownHelper in lockstep with Model/Gate.v, 2-4 threads x 1-3 calls of helper() / ensure_alive(); p_c11: seeded scenarios on real stacks: depth 1-4 over the seven layer kinds, base sync or the real ThreadPoolExecutor, workload "
                 "idle/quick/failing (sleeping between retries)/blocked callables/polling, shutdown(wait True/False, with/without "
@@ -129,7 +132,7 @@ CHECKS = {
         "assumptions": ["PARTIAL: cross-layer propagation/joining is decided by the monitor on explored schedules; the gate protocol is proved for any number of threads"],
     },
     "C04": {
-        "extra_props": ["Props/C04_retry.v", "Props/C04_poll.v", "Props/C04_throttle.v", "Props/C04_timeout.v"],
+        "extra_props": ["Props/C04_retry.v", "Props/C04_poll.v", "Props/C04_throttle.v", "Props/C04_timeout.v", "Props/C04_src.v"],
         "modules": ["p_c04", "p_c04r", "p_c04t", "p_c04p", "p_c04o", "p_c04c", "p_c04m", "p_c04b"],
         "rule": "p_c04t / p_c04p / p_c04o / p_c04c / p_c04m / p_c04b: the lockstep families of C07, C08, C09, C10, C13, C14 (every component machine) with the deadlock / dead-thread verdicts of their monitors; p_c04r: the Retry lockstep family (C05) with the pending / late / deadlock verdicts (a result() or shutdown(wait=True) that would wait for ever on the submit thread); p_c04: seeded scenarios on real stacks: depth 1-4 over the seven layer kinds, base sync or the real ThreadPoolExecutor, client programs "
                 "of 1-3 threads x 1-4 operations {submit, submit whose callable submits again, cancel, add_done_callback, add_done_callback "
@@ -139,7 +142,7 @@ CHECKS = {
         "assumptions": ["PARTIAL: the lock-order theorem is proved for arbitrary lock programs; that the library's composed lock programs respect one order (outside G10) is decided by the explored schedules, not proved"],
     },
     "C03": {
-        "extra_props": ["Props/MapFut_E.v"],
+        "extra_props": ["Props/MapFut_E.v", "Props/C03_src.v"],
         "modules": ["p_c03", "p_c03t", "p_c03h", "p_c03p", "p_c03r", "p_c03m", "p_c03c", "p_c03z"],
         "rule": "p_c03m / p_c03c / p_c03z: the lockstep families of C13, C14, C15 (MapFuture / FlatMapFuture, f_or / f_and, f_zip over environment futures) with the lost-output verdicts of their monitors; p_c03t / p_c03h / p_c03p / p_c03r: the lockstep scenario families of C09 / C07 / C08 / C05 (mixed timeouts on one executor, delegate completions against the hand-over thread's check/wait/clear, registrations and notify() against the poll thread's, attempts finishing against the submit thread's) replayed on the component machines, with the lost-future / late verdicts of their monitors; p_c03: seeded scenarios on real stacks (depth 1-4, sync / real thread pool) with a virtual clock: callables that succeed, fail "
                 "(retries with back-off), block until t=2, futures cancelled through the returned future at t=0/1/2, small (3) or "
@@ -150,6 +153,7 @@ CHECKS = {
         "assumptions": ["the wake-up protocol is proved generically (EventLoop.v); that each worker loop is an instance is validated by the lockstep machines (Retry) and the virtual-time bound"],
     },
     "C20": {
+        "extra_props": ["Props/C20_src.v"],
         "modules": ["p_c20", "p_c20q"],
         "rule": "p_c20q: the same stacks with every RetryExecutor._jobs / ThrottleExecutor._to_submit replaced by a logging container, the executor locks named and "
                 "every RETRY_QUEUE / THROTTLE_QUEUE update observed in the stand-in registry; the projection of each history onto (lock acquire/release, append, "
@@ -162,6 +166,7 @@ CHECKS = {
                         "PARTIAL: future_inprogress / exec_inprogress and the counters are decided by the registry-vs-reality comparison of this run; their pairing law is Model/Metrics.v"],
     },
     "C12": {
+        "extra_props": ["Props/C12_src.v"],
         "modules": ["p_c12", "p_c12w"],
         "rule": "p_c12w: the drop scenarios of p_c12 with the four worker loops in lockstep with Model/Refs.v: every executor_ref() of the loop with its result, whether a library frame "
                 "of the loop still holds the executor when it goes to wait, every set / wait / wake-up / time-out / clear of the loop's event and the finalisation of the executor "
@@ -174,7 +179,7 @@ CHECKS = {
         "assumptions": ["PARTIAL: GC/finalisation timing is CPython's; the worker-loop protocol is proved on Model/Refs.v, which is in lockstep with the four loops (drop scenarios); reference retention of finished work is decided by weakref probes"],
     },
     "C02": {
-        "extra_props": ["Props/Comb_F.v", "Props/MapFut_D.v"],
+        "extra_props": ["Props/Comb_F.v", "Props/MapFut_D.v", "Props/C02_src.v"],
         "modules": ["p_c02m", "p_c02c", "p_c02p", "p_c02x", "p_c02t", "p_c02r"],
         "rule": "p_c02t / p_c02r: the Throttle and Retry lockstep families (cancel() of queued / in-flight futures racing with hand-over and completion) with their protocol verdicts; p_c02x: random expression trees (depth <= 3) over f_map / f_flat_map / f_proxy / f_nocancel / f_timeout / f_zip / f_or / f_and on 1-4 environment futures completed with values or exceptions in any order (monitor only: root done, outcome allowed by the tree's sequential meaning, waiters released); p_c02p: the C08 scenario family on PollExecutor plus 1-3 user done-callbacks per poll future (monitor only); library futures: the C13 scenario family (MapFuture/FlatMapFuture over environment futures; done-callbacks that may raise, "
                 "added before/after completion; 0-2 cancels) plus 0-3 threads blocked in result()/exception()/wait()/as_completed() with a "
@@ -185,6 +190,7 @@ CHECKS = {
         "assumptions": ["entry points not driven here (retry/poll/throttle futures) are covered by their own machines' protocol events"],
     },
     "C09": {
+        "extra_props": ["Props/C09_src.v"],
         "modules": ["p_c09", "p_c09f"],
         "gen_lemmas": ["partition_jobs_spec", "partition_overdue", "partition_pending", "partition_complete",
                        "wait_time_spec", "wait_time_le", "deadline_of_spec"],
@@ -205,6 +211,7 @@ CHECKS = {
                         "monitor on implementation histories; its safety skeleton is proved on the model"],
     },
     "C07": {
+        "extra_props": ["Props/C07_src.v"],
         "module": "p_c07",
         "gen_lemmas": ["throttled_spec", "admission_spec", "loop_wait_spec", "eval_throttle_raise", "block_ready_true"],
         "rule": "seeded random scenarios (count: static 0/1/2/3/None or a scripted callable changing over time, returning None or "
@@ -222,6 +229,7 @@ CHECKS = {
                         "collection of the executor are outside the scenario family"],
     },
     "C08": {
+        "extra_props": ["Props/C08_src.v"],
         "module": "p_c08",
         "gen_lemmas": [],
         "rule": "seeded random scenarios (1-5 submissions, 0-2 cancel() per future and 0-2 notify() from 1-3 client threads at "
@@ -239,7 +247,7 @@ CHECKS = {
     },
     "C18": {
         "modules": ["p_c18", "p_c18m", "p_c18p", "p_c18r", "p_c18c", "p_c18t", "p_c18b", "p_c18z"],
-        "extra_props": ["Props/Comb_F.v", "Props/C06_machine.v"],
+        "extra_props": ["Props/Comb_F.v", "Props/C06_machine.v", "Props/C18_src.v"],
         "gen_lemmas": [],
         "rule": "p_c18b / p_c18z: the combinator lockstep families of C14 / C15 with the dead-thread / raising-constructor verdicts; p_c18c / p_c18t: the lockstep families of C06 (retry: cancel() racing with the submit thread) and C07 (throttle: raising / changing count "
                 "callables, blocking submit) with their fault verdicts (thread died, submit() or cancel() raised); p_c18m / p_c18p / p_c18r: the lockstep scenario families of C02+C13 (raising fn / error_fn / done-callbacks, several callbacks "
